@@ -175,8 +175,8 @@ func (a *bufAnalysis) checkWholeUse(w ssa.Value, ref ssa.Instruction) string {
 				return "copy() on the whole buffer: reads or overwrites bytes present before this call"
 			}
 		}
-		if base, ok := stdAppendBase(x); ok && base == w {
-			// binary.LittleEndian.AppendUint16(b.Buf, v) and friends: append under another name
+		if base, ok := appendBaseOf(x); ok && base == w {
+			// binary.LittleEndian.AppendUint16(b.Buf, v), a package-local appender: append under another name
 			return a.appendResultOK(x)
 		}
 		return "the whole buffer (including bytes present at entry) is passed to " + calleeName(x)
@@ -243,6 +243,16 @@ func (a *bufAnalysis) appendResultOK(ap *ssa.Call) string {
 			}
 			return "result of append(b.Buf, ...) is stored elsewhere than b.Buf"
 		case *ssa.DebugRef:
+		case *ssa.Call:
+			// base of a further append (length prefix first, then the payload): judged by where that one ends up
+			if base, ok := appendBaseOf(x); ok && base == ssa.Value(ap) {
+				if msg := a.appendResultOK(x); msg != "" {
+					return msg
+				}
+				n++
+				continue
+			}
+			return "result of append(b.Buf, ...) is used by " + core.InstrString(r) + " instead of being stored back to b.Buf"
 		default:
 			return "result of append(b.Buf, ...) is used by " + core.InstrString(r) + " instead of being stored back to b.Buf"
 		}
@@ -251,6 +261,71 @@ func (a *bufAnalysis) appendResultOK(ap *ssa.Call) string {
 		return "result of append(b.Buf, ...) is dropped"
 	}
 	return ""
+}
+
+// appendBaseOf: c appends to its base and returns the extended slice - the builtin, a standard-library
+// Append* function, or a function of package proto that only ever returns append(its first slice parameter, ...).
+func appendBaseOf(c *ssa.Call) (ssa.Value, bool) {
+	if bi, ok := c.Call.Value.(*ssa.Builtin); ok && bi.Name() == "append" && len(c.Call.Args) > 0 {
+		return c.Call.Args[0], true
+	}
+	if b, ok := stdAppendBase(c); ok {
+		return b, true
+	}
+	g := core.StaticFn(c)
+	if g == nil || g.Blocks == nil || pkgOf(g) == nil || pkgOf(g).Path() != core.PkgProto || g.Signature.Recv() != nil || len(g.Params) == 0 || g.Signature.Results().Len() != 1 {
+		return nil, false
+	}
+	dst := g.Params[0]
+	if sl, ok := dst.Type().Underlying().(*types.Slice); !ok {
+		return nil, false
+	} else if bt, ok := sl.Elem().Underlying().(*types.Basic); !ok || bt.Kind() != types.Uint8 {
+		return nil, false
+	}
+	var chain func(v ssa.Value, d int) bool
+	chain = func(v ssa.Value, d int) bool {
+		if d > 6 {
+			return false
+		}
+		if v == ssa.Value(dst) {
+			return true
+		}
+		switch x := v.(type) {
+		case *ssa.Call:
+			if b, ok := appendBaseOf(x); ok && x != c {
+				return chain(b, d+1)
+			}
+		case *ssa.Phi:
+			for _, e := range x.Edges {
+				if !chain(e, d+1) {
+					return false
+				}
+			}
+			return true
+		}
+		return false
+	}
+	nret := 0
+	for _, b := range g.Blocks {
+		for _, in := range b.Instrs {
+			switch x := in.(type) {
+			case *ssa.Return:
+				nret++
+				if len(x.Results) != 1 || !chain(x.Results[0], 0) {
+					return nil, false
+				}
+			case *ssa.Store:
+				// writes through the parameter's elements would touch existing contents
+				if ia, ok := x.Addr.(*ssa.IndexAddr); ok && ia.X == ssa.Value(dst) {
+					return nil, false
+				}
+			}
+		}
+	}
+	if nret == 0 {
+		return nil, false
+	}
+	return c.Call.Args[0], true
 }
 
 // isAppended: v is append(WHOLE, ...) or append(WHOLE[:h>=entry], ...).
@@ -267,13 +342,12 @@ func (a *bufAnalysis) isAppended(v ssa.Value, d int) bool {
 		}
 		return false
 	}
-	var base ssa.Value
-	if bi, ok := c.Call.Value.(*ssa.Builtin); ok && bi.Name() == "append" {
-		base = c.Call.Args[0]
-	} else if b, ok := stdAppendBase(c); ok {
-		base = b
-	} else {
+	base, ok := appendBaseOf(c)
+	if !ok {
 		return false
+	}
+	if bc, isCall := base.(*ssa.Call); isCall && d < 4 && a.isAppended(bc, d+1) {
+		return true
 	}
 	if a.whole[base] {
 		return true
